@@ -32,6 +32,7 @@ ENTRY_POINTS = {
     "partlist": ("DataPath.from_part_specs",),
     "rule": ("Rule.from_spec", "Rule.from_json_like"),
     "rules": ("Schema.from_json_like", "Schema.init_rules"),
+    "yaml": ("Schema.from_yaml",),
 }
 
 
@@ -56,6 +57,8 @@ def parse(entry, spec):
         return Schema.from_json_like(spec)
     if entry == "Schema.init_rules":
         return Schema(Schema.init_rules(spec))
+    if entry == "Schema.from_yaml":
+        return Schema.from_yaml(spec)
     raise ValueError(entry)
 
 
@@ -359,6 +362,12 @@ def generate(seed):
             lst.append(ref if ref is not None else gen_rule())
         add("rules", lst)
 
+    # the same rule lists as YAML text (anchors for shared sub-structures), when
+    # everything in them is plain YAML data
+    for i, k in list(enumerate(kinds)):
+        if k == "rules" and r.random() < 0.6 and _yaml_safe(specs, specs[i]):
+            add("yaml", ("yaml_of", i))
+
     targets = [i for i, k in enumerate(kinds) if k in ENTRY_POINTS]
     n_callers = r.randint(1, 3)
     programs = [[] for _ in range(n_callers)]
@@ -382,6 +391,32 @@ def generate(seed):
         "programs": programs,
         "decisions": order_to_decisions(order),
     }
+
+
+def _unshare(x):
+    if isinstance(x, dict):
+        return {k: _unshare(v) for k, v in x.items()}
+    if isinstance(x, list):
+        return [_unshare(v) for v in x]
+    return x
+
+
+def _load_unshared(text):
+    from ruamel.yaml import YAML
+
+    return _unshare(YAML(typ="safe").load(text)["rules"])
+
+
+def _yaml_safe(specs, t):
+    if isinstance(t, tuple):
+        if t and t[0] == "sref":
+            return _yaml_safe(specs, specs[t[1]])
+        return False  # python types / tuples cannot be written as safe YAML
+    if isinstance(t, list):
+        return all(_yaml_safe(specs, i) for i in t)
+    if isinstance(t, dict):
+        return all(isinstance(k, str) and _yaml_safe(specs, v) for k, v in t.items())
+    return True
 
 
 # --------------------------------------------------------------------------
@@ -447,8 +482,16 @@ def on_boundary(eng, c, k, op, out):
     res = st["last"]
     # (iii) parse of a fresh deep copy of the same spec term (and a second one,
     # to make sure equality is meaningful for this spec at all)
-    f1 = try_parse(entry, World(term).get("specs", si))
-    f2 = try_parse(entry, World(term).get("specs", si))
+    if kind == "yaml":
+        # reference for a YAML text with anchors: what the safe loader returns
+        # for this text, with every alias expanded into its own copy, parsed
+        # through init_rules (loading the text - rather than taking the term -
+        # keeps the mapping key order the dumper chose)
+        f1 = try_parse("Schema.init_rules", _load_unshared(world.get("specs", si)))
+        f2 = try_parse("Schema.init_rules", _load_unshared(world.get("specs", si)))
+    else:
+        f1 = try_parse(entry, World(term).get("specs", si))
+        f2 = try_parse(entry, World(term).get("specs", si))
     st["parses"] += 1
     if res[0] != f1[0] or (res[0] == "raise" and res[1] != f1[1]):
         vio.append(
